@@ -443,16 +443,10 @@ class SchedSocket:
         An injected failure (run.fail_at[(tid, call)] = k) raises OSError once k chunks of this frame are out."""
         run, sched = self.run, self.run.sched
         data = bytes(data)
-        if self.closed:
-            # a sender that passed the state checks AFTER the loop thread shut the socket down (and before it stored `_sock = None` /
-            # `closed = True`): TransportFail to the caller, nothing written.  Recorded: the thread model lets this write through
-            # (see thrutil.dead_writes)
-            tid0 = sched.me()
-            if tid0 is not None:
-                run.dead_writes.append((tid0, sched.call[tid0]))
-            raise OSError(9, 'simulated: socket is closed')
         tid = sched.me()
         if tid is None:
+            if self.closed:
+                raise OSError(9, 'simulated: socket is closed')
             run.unscheduled_writes.append(data)
             return
         call = sched.call[tid]
@@ -471,12 +465,23 @@ class SchedSocket:
         def boom(k):
             rec['failed'] = True
             raise OSError(32, 'simulated: sendall failed after %d chunk(s)' % k)
+
+        def dead():
+            # every `send()` on a socket that has been shut down and closed raises EBADF.  Reachable: a sender that passed the state
+            # checks AFTER the loop thread shut the socket down and before it stored `_sock = None` / `closed = True` - TransportFail to
+            # the caller, nothing written.  The attempt is a sync step like any other write (the model's `write1` on `sockShut`);
+            # recorded for the oracle, which must know that this TransportFail was not injected by the harness
+            if self.closed:
+                run.dead_writes.append((tid, call))
+                raise OSError(9, 'simulated: socket is closed')
         if m == 0:
             sched.step('w1')
+            dead()
             if kfail == 0:
                 boom(0)
         for j in range(m):
             sched.step('w1', check=(j == 0))
+            dead()
             if kfail == j:
                 boom(j)
             sink.append((tid, call, 0, data[j * q:(j + 1) * q]) + ((len(run.chunks),) if is_req else ()))
@@ -485,6 +490,7 @@ class SchedSocket:
             if sched.mode == 'line':
                 sched.line_yield(tid)
         sched.step('w2', check=False)
+        dead()
         if kfail == m:
             boom(m)
         sink.append((tid, call, 1, data[m * q:]) + ((len(run.chunks),) if is_req else ()))
@@ -799,7 +805,9 @@ def run_real(case):
                     sched.problems.append('unmapped load of _sock by thread %d at %s:%d' % (
                         tid, os.path.basename(f.f_code.co_filename), f.f_lineno))
                 elif self.__dict__.get('_sock_value') is None and f.f_code.co_name == '_sendall':
-                    # `self._sock.sendall` after another thread stored `_sock = None`: AttributeError -> TransportFail
+                    # `self._sock.sendall` after another thread stored `_sock = None` (which it does after it has shut the socket
+                    # down): AttributeError -> TransportFail.  The attempted write is the sync step `w1`, as on the shut socket
+                    sched.step('w1', check=False)
                     run.dead_writes.append((tid, sched.call[tid]))
             return self.__dict__.get('_sock_value')
 
